@@ -242,6 +242,11 @@ pub fn build(env: &PipeEnv, x: &Sx) -> Observable<'static, V> {
       need(2);
       observables::interval(ms(&l[1]), schedulers::new_thread_scheduler()).map(|n| V::int(n as i64))
     }
+    // the same with the synchronous default scheduler: the ticker runs on the subscribing thread until it is unsubscribed
+    "interval_sync" => {
+      need(2);
+      observables::interval(ms(&l[1]), schedulers::default_scheduler()).map(|n| V::int(n as i64))
+    }
     "timer" => {
       need(2);
       observables::timer(ms(&l[1]), schedulers::new_thread_scheduler()).map(|_| V::Unit)
@@ -521,6 +526,11 @@ fn apply_op(
     "timeout" => {
       np(1);
       src.timeout(ms(&ps[0]), schedulers::new_thread_scheduler())
+    }
+    // the deadline timer runs on the emitting thread: the item's next() returns after the period, with TimedOut delivered
+    "timeout_sync" => {
+      np(1);
+      src.timeout(ms(&ps[0]), schedulers::default_scheduler())
     }
     "debounce" => {
       np(1);
